@@ -108,16 +108,76 @@ def check_case(run, case, determinism=False):
     finally:
         repo.drop_rules(name)
 
+def big_queue_case(rng):
+    """More than 50 000 base structures, every variable with two probability groups: the queue holds over 50 000 pre-terminals at once and keeps that size
+    while children replace their parents (the tool has a `max_queue_size` of 50 000 that has never been enforced)."""
+    import itertools
+    labels = ['A1', 'A2', 'A3', 'D1', 'D2', 'D3', 'O1', 'O2', 'K4', 'Y1', 'X1', 'D4', 'A4', 'O3', 'A5', 'D5']
+    tuples = rng.sample(list(itertools.product(labels, repeat=4)), 50400)
+    n = len(tuples)
+    tot = n * (n + 1) // 2
+    base = [[''.join(t), (n - i) / tot] for i, t in enumerate(tuples)]
+    vals = {'A': lambda k: ['abcde'[:k], 'zyxwv'[:k]], 'D': lambda k: ['12345'[:k], '98765'[:k]], 'O': lambda k: ['!@#'[:k], '...'[:k]],
+            'K': lambda k: ['1qaz', 'zaq1'], 'Y': lambda k: ['1999', '2012'], 'X': lambda k: ['#1', '<3']}
+    terms = {}
+    for lab in labels:
+        a, b = vals[lab[0]](int(lab[1:]))
+        terms[lab] = [[a, 0.7], [b, 0.3]]
+        if lab[0] == 'A':
+            terms['C' + lab[1:]] = [['L' * int(lab[1:]), 0.8], ['U' + 'L' * (int(lab[1:]) - 1), 0.2]]
+    return {'spec': {'encoding': 'utf-8', 'uuid': 'bigq-%08x' % rng.getrandbits(32), 'base': base, 'prince': [], 'terms': terms, 'omen': None}, 'big_queue': True,
+            'flags': {'skip_brute': False, 'all_lower': False, 'folder': 'Grammar'}}
+
+def check_big_queue(run, case, npops=62000):
+    """Prefix of a run that cannot be exhausted here: the first npops pre-terminals, order and attached probability only (no per-pop scan of the heap)."""
+    name, path = gstream.materialise(case['spec'], 'c01big')
+    try:
+        repo.scratch()
+        from lib_guesser.priority_queue import PcfgQueue
+        pcfg = monitors.load_pcfg(path, 'x')
+        q = PcfgQueue(pcfg)
+        gp = {lab: [r[1] for r in rows] for lab, rows in case['spec']['terms'].items()}
+        bp = {s_: p for s_, p in case['spec']['base']}
+        prev, seen = None, set()
+        for k in range(npops):
+            it = q.next()
+            if it is None:
+                break
+            key = monitors.pt_key(it['pt'])
+            run.ev('POP'); run.ev('prob_checked')
+            if prev is not None and it['prob'] > prev:
+                run.violation(f'order: pop {k} prob {it["prob"]!r} > previous {prev!r} (ruleset with {len(bp)} base structures, more than 50 000 pre-terminals queued at once)', case={'big_queue': True, 'hseed': 0}); return
+            prev = it['prob']
+            struct = ''.join(l for l in key[0] if l[0] != 'C')
+            exp = bp[struct]
+            for lab, i in zip(*key):
+                exp *= gp[lab][i]
+            if abs(exp - it['prob']) > 1e-12 * exp:
+                run.violation(f'reported probability of {key} is not the product of its factors', case={'big_queue': True, 'hseed': 0}, observed=repr(it['prob']), expected=repr(exp)); return
+            if key in seen:
+                run.violation(f'pre-terminal {key} emitted twice within the first {npops} pops of a large ruleset', case={'big_queue': True, 'hseed': 0}); return
+            seen.add(key)
+        run.ev('big_queue_runs')
+        run.sample({'big_queue': True, 'base_structures': len(bp), 'pops': len(seen), 'last_prob': repr(prev)})
+    finally:
+        repo.drop_rules(name)
+
 def run(run, rng):
-    run.required_events = ['POP', 'prob_checked', 'determinism_runs', 'runs_beside_a_live_abandoned_queue']
+    run.required_events = ['POP', 'prob_checked', 'determinism_runs', 'runs_beside_a_live_abandoned_queue', 'big_queue_runs']
     run.min_distinct = 5
     run.assumptions = ['well-formed rulesets: every label used by a base structure has a non-empty file, values have the stated length',
                        'probability equality is judged on the doubles the loader obtains with float(text)',
                        'reported probability may differ from the exact rational product by (n+3) ulp (any multiplication order)']
+    if run.shard[0] == 1 % run.shard[1] or (run.tier == 'thorough' and run.shard[0] < 3):
+        run.guard(big_queue_case(rng), check_big_queue, seconds=600)
     n = N[run.tier]
     for i in range(n):
         case = gen_case(rng)
         run.guard(case, check_case, determinism=(i % (6 if run.tier == 'quick' else 40) == 0), seconds=60)
 
 def replay(run, case):
-    check_case(run, case['case'], determinism=True)
+    if case['case'].get('big_queue'):
+        import random
+        check_big_queue(run, big_queue_case(random.Random(case['case'].get('hseed', 0))))
+    else:
+        check_case(run, case['case'], determinism=True)
